@@ -146,3 +146,19 @@ Theorem generated_read_as_bytes_meets_C03 B p n : wf B -> 0 <= p -> 0 <= n -> p 
   gen_read_as_bytes (VBytes B) (VInt p) (VInt n) = Ok (VBytes (spec_bytes B p n), VInt (p + n)).
 Proof. intros W Hp Hn Hin. rewrite gen_read_as_bytes_is_model by assumption. now rewrite read_bytes_spec by assumption. Qed.
 Print Assumptions generated_read_as_bytes_meets_C03.
+
+(* consecutive reads of the generated read_as_int compose: the second read, started at the cursor the first
+   returned, and one read of the joint width see the same bits and end at the same cursor *)
+Theorem generated_reads_compose_C03 B p n m : wf B -> 0 <= p -> 0 <= n -> 0 <= m -> p + n + m <= 8 * zlen B ->
+  gen_read_as_int (VBytes B) (VInt p) (VInt n) = Ok (VInt (spec_int B p n), VInt (p + n)) /\
+  gen_read_as_int (VBytes B) (VInt (p + n)) (VInt m) = Ok (VInt (spec_int B (p + n) m), VInt (p + n + m)) /\
+  gen_read_as_int (VBytes B) (VInt p) (VInt (n + m))
+  = Ok (VInt (spec_int B p n * 2 ^ m + spec_int B (p + n) m), VInt (p + n + m)).
+Proof.
+  intros W Hp Hn Hm Hin.
+  split; [apply generated_read_as_int_meets_C03; assumption || lia|].
+  split; [apply generated_read_as_int_meets_C03; assumption || lia|].
+  rewrite generated_read_as_int_meets_C03 by (assumption || lia).
+  rewrite spec_int_split by (assumption || lia). now rewrite Z.add_assoc.
+Qed.
+Print Assumptions generated_reads_compose_C03.
